@@ -495,4 +495,87 @@ def runLive20 (kv : List (String × String)) : IO Res := do
     | _ => pure ()
   return .ok tags (some s!"{lc.threads.length}/{principal.isSome}/{tags.eraseDups}")
 
+/-- which stream an object of the image belongs to (what its directory entry, once visible, promises) -/
+def objStream (kind : String) : Option Nat :=
+  if kind.startsWith "stack:" || kind.startsWith "context:" then some ST_THREAD_LIST
+  else if kind.startsWith "modname:" || kind.startsWith "cv:" then some ST_MODULE_LIST
+  else if kind.startsWith "mem:" then some ST_MEMORY_LIST
+  else if kind == "excctx" then some ST_EXCEPTION
+  else if kind == "osversion" then some ST_SYSTEM_INFO
+  else if kind.startsWith "tname:" then some ST_THREAD_NAMES
+  else if kind.startsWith "hname:" then some ST_HANDLE_DATA
+  else if kind == "linkmaps" || kind.startsWith "lmname:" then some ST_LINUX_DSO_DEBUG
+  else none
+
+/-- C09 / C10 on a real dump: the destination holds exactly the image from its starting position, and at every
+    call boundary what had reached it was a consistent truncated dump (every visible directory entry's stream and
+    everything that stream refers to already present). -/
+def runLive0910 (prop : String) (kv : List (String × String)) : IO Res := do
+  let lc ← match ← loadLive kv with
+    | .ok l => pure l
+    | .error e => return .bad e
+  let mut tags := cfgTags lc.cfg
+  if lc.result != "ok" then return .ok ("dump.failed" :: tags)
+  let some destB ← readSidecar kv "dest" | return .bad "dest"
+  let some c0B ← readSidecar kv "c0" | return .bad "c0"
+  let some imgB ← readSidecar kv "img" | return .bad "img"
+  let some start := getNat kv "start" | return .bad "start"
+  let log := splitList ((get kv "log").getD "-") ","
+  if start > 0 then tags := "start.nonzero" :: tags
+  if c0B.size > start + imgB.size then tags := "content.beyond" :: tags
+  if prop == "C09" then
+    -- before the start: untouched; from the start: the image; beyond the image: untouched
+    for k in [0 : start] do
+      if destB[k]? != c0B[k]? then return .propfail s!"byte {k}, before the starting position {start}, was modified" tags
+    if destB.size != max c0B.size (start + imgB.size) then
+      return .propfail s!"destination length {destB.size}, expected {max c0B.size (start + imgB.size)}" tags
+    for k in [0 : imgB.size] do
+      if destB[start + k]? != imgB[k]? then return .propfail s!"destination byte at image offset {k} differs from the returned image" tags
+    for k in [start + imgB.size : c0B.size] do
+      if destB[k]? != c0B[k]? then return .propfail s!"byte {k}, beyond the image, was modified" tags
+    return .ok ("dest.equal" :: tags) (some s!"{start}/{c0B.size}/{lc.threads.length}")
+  -- C10: replay the call log
+  let some h := decodeHeader lc.img | return .bad "header"
+  let objs ← match collectObjects lc.img with
+    | .ok o => pure o
+    | .error e => return .propfail s!"image not well formed: {e}" tags
+  let dirLo := h.dirRva
+  let dirHi := h.dirRva + 12 * h.streamCount
+  let mut upto := 0                          -- image bytes [0, upto) have reached the destination
+  let mut patched : List Nat := []           -- directory slots written with their final value
+  let mut call := 0
+  let mut checkedStates := 0
+  for e in log do
+    call := call + 1
+    if e.startsWith "w" then
+      match (e.drop 1).toString.splitOn "+" with
+      | [o, l] =>
+        let some off := o.toNat? | return .bad "log"
+        let some len := l.toNat? | return .bad "log"
+        if off < start then return .propfail s!"call #{call} wrote below the starting position" tags
+        let io := off - start
+        if io == upto then upto := io + len
+        else if io + len ≤ upto then
+          -- a patch of bytes that were flushed before: only directory slots may be rewritten
+          if io ≥ dirLo && io + len ≤ dirHi && (io - dirLo) % 12 == 0 && len == 12 then
+            patched := ((io - dirLo) / 12) :: patched
+          else return .propfail s!"call #{call} rewrote image bytes [{io},+{len}) that had already been flushed" tags
+        else return .propfail s!"call #{call} wrote [{io},+{len}) leaving a gap after {upto}" tags
+        -- the state now: every visible entry must be backed by what has arrived
+        if upto ≥ dirHi then
+          for slot in patched do
+            let some d := lc.dir[slot]? | continue
+            if d.ty == 0 && d.size == 0 && d.rva == 0 then continue
+            if d.rva + d.size > upto then
+              return .propfail s!"after call #{call} ({e}): stream {d.ty} is published but its bytes [{d.rva},+{d.size}) have not all arrived (arrived: {upto})" tags
+            for o in objs do
+              if objStream o.kind == some d.ty && o.rva + o.size > upto then
+                return .propfail s!"after call #{call} ({e}): stream {d.ty} is published but {o.kind} [{o.rva},+{o.size}) it refers to has not arrived (arrived: {upto})" tags
+          checkedStates := checkedStates + 1
+      | _ => return .bad "log entry"
+  if upto != imgB.size then return .propfail s!"only {upto} of {imgB.size} image bytes reached the destination" tags
+  if checkedStates > 0 then tags := "states.checked" :: tags
+  if patched.eraseDups.length ≥ 10 then tags := "entries.many" :: tags
+  return .ok tags (some s!"{log.length}/{patched.eraseDups.length}/{lc.threads.length}")
+
 end Mdw.Drv.LiveProps
